@@ -1794,9 +1794,37 @@ def m_unreachable_display(I, c, s):
     raise Panic('internal error: entered unreachable code')
 
 
-@model('DisplayAsDisplay::as_display', 'AsDynError::as_dyn_error')
-def m_as_display(I, c, r):
+@model('AsDynError::as_dyn_error')
+def m_as_dyn_error(I, c, r):
     return r
+
+
+@model('DisplayAsDisplay::as_display')
+def m_as_display(I, c, r):
+    # thiserror: impl<T: Display> DisplayAsDisplay for &T { fn as_display(&self) -> Self { *self } }
+    return r.get()
+
+
+@model('usize::saturating_sub', 'u64::saturating_sub', 'u32::saturating_sub')
+def m_saturating_sub(I, c, a, b):
+    if not (isinstance(a, int) and isinstance(b, int)):
+        raise Unsupported('symbolic saturating_sub')
+    return max(0, a - b)
+
+
+@model('usize::saturating_add')
+def m_saturating_add(I, c, a, b):
+    return min(2 ** 64 - 1, a + b)
+
+
+@model('usize::checked_sub')
+def m_checked_sub(I, c, a, b):
+    return Some(a - b) if a >= b else NONE_()
+
+
+@model('usize::wrapping_sub')
+def m_wrapping_sub(I, c, a, b):
+    return (a - b) % 2 ** 64
 
 
 @model('Formatter::debug_tuple_field1_finish', 'Formatter::debug_struct_field1_finish',
